@@ -19,7 +19,7 @@ def main():
     common.use_repo()
     mod = importlib.import_module(f"props.{a.pid.lower()}")
     try:
-        with common.RepoLock():
+        with common.RepoLock(a.pid):
             if a.replay:
                 rc = mod.replay(a.replay)
             else:
